@@ -430,6 +430,9 @@ def spell(rng, includer, target):
 def render_file(rng, idx, includer, targets):
     """text of one file: ordinary definitions and scopes around the include lines"""
     tag = "abcd"[idx]
+    if not targets and idx > 0 and rng.randrange(4) == 0:
+        # a leaf without any object: empty, blank or comment-only (included twice it is still no cycle)
+        return rng.choice(["", "\n\n", "# nothing here yet\n", "  \n# c1\n# c2\n"])
     lines = ["%s0 = %d" % (tag, idx)]
     for j, t in enumerate(targets):
         name = spell(rng, includer, t)
@@ -476,6 +479,9 @@ class Graphs(IncludeStream):
             mk("include file a.phil\n", "b = 1\n", "c = 1\n"),
             # cycle not through the root
             mk("include file sub/b.phil\n", "include file deep/c.phil\n", "include file ../../sub/b.phil\n"),
+            # an empty and a comment-only file included twice / reached along two branches: no cycle
+            mk("a = 1\ninclude file sub/deep/c.phil\nb = 2\ninclude file sub/deep/c.phil\nx = 3\n", "b = 1\n", ""),
+            mk("include file sub/deep/c.phil\ninclude file sub/b.phil\n", "b = 1\ns {\n  include file deep/c.phil\n}\n", "# only a comment\n"),
         ]
 
     def cases(self, rng, tier):
